@@ -787,7 +787,9 @@ class BaseSection(base.Sectionable):
         Clean up a merged section by removing objects that are totally equal
         to the linked object
         """
-        if self == section:
+        # Only the very same object cannot be unmerged from itself; a copy that is still
+        # totally equal to the merged object is unmerged like any other.
+        if self is section:
             raise RuntimeError("cannot unmerge myself?")
         removals = []
         for obj in section:
